@@ -137,6 +137,9 @@ func c11Run(r *core.Run) {
 	if w.LevelIdx > 0 {
 		r.Probe("matching_level_not_first")
 	}
+	if w.SerialCoincidence {
+		r.Probe("crl_lists_same_serial_of_another_issuer")
+	}
 	if len(w.Quote.Auth) == 65535 {
 		r.Probe("auth_65535")
 	}
@@ -291,6 +294,6 @@ func init() {
 			return 160
 		},
 		Run:       c11Run,
-		MustProbe: []string{"module_branch", "matching_level_not_first", "auth_65535", "recovery_after_faults", "intel_sample_quote", "default_options_on_fake_clock"},
+		MustProbe: []string{"module_branch", "matching_level_not_first", "auth_65535", "recovery_after_faults", "intel_sample_quote", "default_options_on_fake_clock", "crl_lists_same_serial_of_another_issuer"},
 	})
 }
